@@ -4,8 +4,8 @@
 
 namespace {
 
-enum RKind { R_VAL = 0, R_EXC, R_DROP, R_MOVECALL, R_MOVEDIE, R_ASSIGN, R_START, R_NOP, R_NKINDS };
-static const char *rk_names[] = {"val", "exc", "drop", "mvcall", "mvdie", "assign", "start", "nop"};
+enum RKind { R_VAL = 0, R_EXC, R_DROP, R_MOVECALL, R_MOVEDIE, R_ASSIGN, R_START, R_BIND, R_NOP, R_NKINDS };
+static const char *rk_names[] = {"val", "exc", "drop", "mvcall", "mvdie", "assign", "start", "bind", "nop"};
 enum WKind { W_NONE = 0, W_WAIT, W_CORO, W_HASV, W_COHASV, W_NWK };
 static const char *wk_names[] = {"none", "wait", "coro", "hasv", "cohasv"};
 
@@ -136,6 +136,20 @@ static void resolver(cocls::promise<T> &p, int i, int kind) {
             s[S_RET + i] = ok ? 1 : 2;
             break;
         }
+        case R_BIND: {
+            // bind(payload) takes the promise and fixes the payload now; the caller's variable changes before the bound
+            // function is finally called
+            if constexpr (std::is_same_v<T, int> || std::is_same_v<T, Counted>) {
+                T payload(100 + i);
+                auto fn = p.bind(payload);
+                payload = T(-5);
+                s[S_RET + i] = fn() ? 1 : 2;
+            } else {
+                cocls::promise<T> q(std::move(p));
+                s[S_RET + i] = call_value<T>(q, i) ? 1 : 2;
+            }
+            break;
+        }
         case R_ASSIGN:
             // move-assigning over the live promise drops what it pointed to (resolution to no-value); nothing is reported
             p = cocls::promise<T>();
@@ -247,7 +261,7 @@ static void scenario(int n, const int *kinds, int wk) {
         expect.kind = 3;
     else {
         int k = kinds[win];
-        if (k == R_VAL || k == R_MOVECALL || k == R_START) {
+        if (k == R_VAL || k == R_MOVECALL || k == R_START || k == R_BIND) {
             expect.kind = 1;
             expect.val = std::is_void_v<T> ? 0 : 100 + win;
         } else if (k == R_EXC) {
